@@ -83,7 +83,7 @@ C["C03"] = ("Coq theorems over a transition system of the request path (connecti
 C["C01"] = ("Coq theorems over the same transition system: on every connection, at every point of every schedule, length(out) = requests answered <= requests read, out is the prefix of the "
             "single server's replies in order (one connection), and in general each reply is assembled from the replies to that request's own children; every reply the proxy writes itself "
             "(errors, fixed answers, the sum error) has no LF in its text for ANY request content, so it is one frame; decoding does not depend on fragmentation (C10). Tie: pipelines with "
-            "random fragmentation and concurrent connections against nodes answering at different speeds, replies and absence of extra bytes compared with the model.",
+            "random fragmentation and concurrent connections against nodes answering at different speeds, replies and absence of extra bytes compared with the model; framing-only run over every command name with CR LF / reply look-alikes in every argument (replies counted up to a sentinel), a node answering behind a short idle timeout and one answering after 3.3 s.",
             "Delays are per node; Go-level interleavings sampled.", "DESIGN.md §4 C01")
 C["C04"] = ("Coq theorems over a model of a migrating cluster (per-node data, slot owners, migrating slots; nodes answer execute / ASK / MOVED by Redis Cluster's rules) and of the proxy's "
             "redirect handling, for EVERY per-key command semantics and slot function: any sequence of migration steps keeps 'each key lives on the owner or, while migrating, on owner or "
@@ -117,13 +117,13 @@ C["C16"] = ("Coq theorems over a model of the subscription client (dependency se
             "subscribe/unsubscribe calls, streams coming up and failing, and sender flushes: no call blocks; with a stream up, the server's view updated by the queued changes in order "
             "is the dependency set; one request built from the queue says exactly what the queued changes say; hence after one flush the subscriptions equal the dependency set. The code "
             "as it was is refuted twice (17th change with no stream blocks holding the lock so that the reconnect never happens; unsubscribe+subscribe in one batch lose their order), both "
-            "repaired by fix commits. Tie: histories on the real client through a verif-tagged handle with a scripted stream factory vs the extracted model.",
-            "Server semantics of a request assumed (add then remove); gRPC transport and the 1 s retry pause not exercised.", "DESIGN.md §4 C16")
+            "repaired by fix commits. Tie: histories on the real client through a verif-tagged handle with a scripted stream factory vs the extracted model (bursts while the sender is busy included); end to end, dependency responses through the real discovery client (wrapped hook, both subscription clients, stream failures, Run's real retry pause) over a scripted api.DiscoveryServiceClient stub vs the dependency set.",
+            "Server semantics of a request assumed (add then remove); the gRPC transport itself is not exercised.", "DESIGN.md §4 C16")
 C["C09"] = ("Coq theorems over a model of the listener's life (Serve goroutine scheduled, bind rounds, accepts, handlers returning, Stop, Drain in ANY order): an invariant over every "
             "reachable state; Stop is never left waiting for a Serve that returned without signalling; while it waits, the handlers of the closed connections returning and Serve's next "
             "step let it return within (open connections + 2) steps; afterwards the socket is closed and no connection is left; Drain leaves established connections alone and no accept "
             "succeeds while draining; the code as it was is refuted (Stop during bind retry / before Serve runs waits for ever), repaired by fix commits together with two Redis-side "
-            "hangs (silent backend). Tie: lifecycle scenarios and random stop points on both processors vs the extracted model's predictions.",
+            "hangs (silent backend). Tie: lifecycle scenarios and random stop points on both processors vs the extracted model's predictions: also connection loss under load before Stop, Stop during a slow backend connect, Stop during a health-check round on an unresponsive host, accept failing with EMFILE (the process really runs out of descriptors).",
             "Backends closed and goroutine count observed, not modelled; connection limit via C20.", "DESIGN.md §4 C09")
 C["C05"] = ("Coq theorems over a model of one direction of the relay (source sends and half-closes, copy rounds whose reads return ANY number of bytes up to the buffer): at every moment "
             "delivered ++ unread = sent (nothing added, dropped, duplicated, reordered), end-of-stream is delivered only when everything has been, each round makes progress, the end "
